@@ -68,10 +68,22 @@ CLAIMED = {
     text="Lean theorem over the allocator/Vec/region model: for every operation sequence (create, fill, resize up/down, clone, lock, unlock, protect, drop) every release event reaches the system allocator with all layout.size() bytes zero — an invariant of deallocate, independent of the Vec growth policy; the unwiped variant is shown to violate it. Tied to the code through hook H2 (address, size, non-zero count at every release).",
     design="§7 C15", technique="Lean 4 proof (release-trace invariant) + differential correspondence through the allocator release observer",
     note="hook H2 is trusted to report what is freed; nightly build only."),
+ "C18": dict(
+    text="Lean theorem simd_compress_eq: the SIMD compression function — a Lean interpreter over swizzle/rotation tables REGENERATED FROM blake2b_simd.rs by tools/simd_tables.py on every run — equals the software compression function for every chaining value, counter, flags and block (schedule_eq_sigma by decide over the regenerated tables, lane-wise G, permute/unpermute), lifted to whole hashes (simd_hashChunks_eq) through the buffering theorems that hold for any compression function; hence equal to RFC 7693. Tied to the code by answering the C07/C08/C09/C12/C05/C06/C13 corpora with three builds (stable default, nightly, nightly+simd_backend) and diffing the transcripts, plus Vec/stack/heap container groups.",
+    design="§7 C18, §10", technique="translator (Rust source → Lean tables) + Lean 4 proof of SIMD = software compression + three-build transcript diff",
+    note="the translator is trusted to transcribe the swizzle tables (it fails loudly on unexpected shapes); sha2/asm and dalek's SIMD backends are covered by the transcript diff only."),
  "C19": dict(
     text="Lean theorems over the protected-memory model with an arbitrary lock-refusal oracle: every Result-returning constructor/transition yields ok or err, never panic; a refused lock leaves every other region's pages untouched and the consumed region wiped and unlocked; drop still restores everything. Tied to the code by re-running the C14 sequences with the k-th and all later mlock requests refused by an LD_PRELOAD shim.",
     design="§7 C19", technique="Lean 4 proof (no-panic and cleanup under any refusal oracle) + fault-injection correspondence (LD_PRELOAD mlock shim)",
     note="non-Result operations (Clone, resize of a locked region, Default) may panic when locking is refused: outside the property's statement."),
+ "C16": dict(
+    text="Lean theorems over the serde data-model view of bytes_serde.rs and the from/to-bytes layer: fixed-length decoding succeeds iff the encoding holds exactly n bytes and then yields exactly those bytes (both encodings of a byte string: element sequence and byte string) — never padded, never truncated, never a panic; resizable containers decode to exactly the payload; de∘ser = id; to_bytes layouts (tag‖c, epk‖tag‖c, sig‖m) and from_bytes∘to_bytes = id. Tied to the code by decoding stack/locked containers from every element count 0..=2n in JSON-array, JSON-string and bincode encodings, heap containers for payload lengths incl. page boundaries, and JSON/bincode round trips of every serde object followed by decrypt/verify.",
+    design="§7 C16", technique="Lean 4 proof (strict fixed-length decoding iff, round trips, layouts) + differential correspondence impl/model over both serde formats",
+    note="serde_json, bincode and serde_derive are trusted to hand the visitors what the model assumes; nightly build for heap/locked containers."),
+ "C20": dict(
+    text="Lean theorems over the type-state table `permits` (which trait impls protected.rs/dryocstream.rs offer in each state): everything permitted in a state is allowed by the page rights that state guarantees (permits_sound), mutable views only in ReadWrite, no view in NoAccess, no-access only when Unlocked, nothing after a consuming transition, push/pull only on the matching stream mode, and well_typed_no_fault: a program whose every step is permitted never performs an access its page rights forbid (induction over programs). That rustc accepts exactly this table is measured exhaustively on every run: one program per cell (150) compiled against the current tree, permitted ones also run.",
+    design="§7 C20", technique="Lean 4 proof over the permits table + exhaustive compile farm (rustc verdict per cell vs the Lean table)",
+    note="rustc's trait resolution/borrow checking is the decider and is trusted; the (NoAccess, Locked) state is compile-only."),
  "C17": dict(
     text="Lean theorem over the buffer-level models: whenever an opening function (box/secretbox/sealed/afternm, detached and in-place, stream pull) returns err, the caller's message buffer and tag variable equal their initial values — for every input, not only single corruptions. Tied to the code by the exhaustive single-fault family with sentinel-filled buffers.",
     design="§7 C17", technique="Lean 4 proof (failed open leaves outputs untouched) + exhaustive single-fault differential enumeration with sentinel buffers",
